@@ -102,7 +102,7 @@ HARNESSES = [
          encodes=["tinylfu_cached::cache::cached::CacheD::{multi_get,multi_get_iterator,multi_get_map_iterator}", "MultiGetIterator::next", "MultiGetMapIterator::next"]),
     dict(name="c02_two_keys_map_iterator", file="cached.rs", props=["C02"], timeout=900,
          encodes=["tinylfu_cached::cache::cached::CacheD::{multi_get,multi_get_iterator,multi_get_map_iterator}", "MultiGetIterator::next", "MultiGetMapIterator::next"]),
-    dict(name="c07_put_client_step_q0", group="c07_put_client_step", file="cached.rs", props=["C07"], timeout=900,
+    dict(name="c07_put_client_step_q0", group="c07_put_client_step", file="cached.rs", props=["C07", "C05"], timeout=900,
          encodes=["tinylfu_cached::cache::cached::CacheD::{put,put_with_weight,put_with_ttl,put_with_weight_and_ttl,key_description}", "Store::is_present", "CommandExecutor::send", "Calculation::perform", "CommandAcknowledgement::{new,rejected}"]),
     dict(name="c07_put_client_step_q1", group="c07_put_client_step", file="cached.rs", props=["C07"], timeout=900,
          encodes=["tinylfu_cached::cache::cached::CacheD::{put,put_with_weight,put_with_ttl,put_with_weight_and_ttl,key_description}", "Store::is_present", "CommandExecutor::send", "Calculation::perform", "CommandAcknowledgement::{new,rejected}"]),
@@ -118,6 +118,10 @@ HARNESSES = [
          encodes=["tinylfu_cached::cache::cached::CacheD::{delete,get,get_ref,put_with_weight,total_weight_used}", "Store::{mark_deleted,delete}", "CommandExecutor::{send,spin (worker closure),delete}", "AdmissionPolicy::delete", "CacheWeight::delete", "TTLTicker::delete", "CommandAcknowledgementHandle::{done,poll}"]),
     dict(name="c04_delete_hides_then_releases_q3", group="c04_delete_hides_then_releases", file="cached.rs", props=["C04"], timeout=900,
          encodes=["tinylfu_cached::cache::cached::CacheD::{delete,get,get_ref,put_with_weight,total_weight_used}", "Store::{mark_deleted,delete}", "CommandExecutor::{send,spin (worker closure),delete}", "AdmissionPolicy::delete", "CacheWeight::delete", "TTLTicker::delete", "CommandAcknowledgementHandle::{done,poll}"]),
+    dict(name="c07_put_while_writer_holds_guard", file="cached.rs", props=["C07", "C18"], timeout=900,
+         encodes=["tinylfu_cached::cache::cached::CacheD::{put_or_update,put_with_weight}", "Store::{update,is_present}"]),
+    dict(name="c04_delete_while_reader_holds_guard", file="cached.rs", props=["C04", "C18"], timeout=900,
+         encodes=["tinylfu_cached::cache::cached::CacheD::{get_ref,delete,get,total_weight_used}", "Store::mark_deleted"]),
     dict(name="c08_put_or_update_step_q0", group="c08_put_or_update_step", file="cached.rs", props=["C08", "C10", "C18"], timeout=1500,
          encodes=["tinylfu_cached::cache::cached::CacheD::{put_or_update,get,key_description}", "PutOrUpdateRequest::updated_weight", "Store::update", "StoredValue::update", "UpdateResponse::type_of_expiry_update", "TTLTicker::{put,update,delete}", "AdmissionPolicy::{weight_of,update}", "CacheWeight::update", "CommandExecutor::{send,spin (worker closure: UpdateWeight arm)}"]),
     dict(name="c08_put_or_update_step_q1", group="c08_put_or_update_step", file="cached.rs", props=["C08"], timeout=1500,
